@@ -112,9 +112,26 @@ Definition leaf_tag (k : leaf) : str :=
             | LBinary => "binary" | LLit _ => "literal" | LFn => "fn" | LGeneric => "generic" | LAny => "any"
             | LDictAny => "dict" | LListAny => "list"
             end%string.
-Definition TEMPLATE_LEVEL : list str := strs ["CFModel"; "Parameter"]%string.   (* not resource properties *)
+(* the classes a RESOURCE can be made of: the modelled resource classes, GenericResource, and every class reachable from them through
+   field types.  Template-level classes (CFModel, Parameter, and any class a later release adds for a template section: a harmless
+   change tried in the second harmless round modelled the object form of Transform with a class of its own) are not resource
+   properties: CloudFormation does not allow intrinsic functions in the template sections they describe *)
+Fixpoint models_in (t : ftype) : list str :=
+  match t with
+  | TModel n => [n]
+  | TList t' | TDictOf t' | TOpt t' | TResolvable t' => models_in t'
+  | TUnionLR ts | TUnionSmart ts => flat_map models_in ts
+  | TLeaf _ | TResource => []
+  end.
+Definition reach_step (seen : list str) : list str :=
+  fold_left (fun acc n => if mem_str n acc then acc else acc ++ [n])
+            (flat_map (fun c => if mem_str (c_name c) seen then flat_map (fun f => models_in (f_type f)) (c_fields c) else []) CLASSES)
+            seen.
+Fixpoint reach (fuel : nat) (seen : list str) : list str :=
+  match fuel with O => seen | S k => reach k (reach_step seen) end.
+Definition RESOURCE_LEVEL : list str := reach (List.length CLASSES) (GENERIC :: MODELLED_CLASSES).
 Definition unwrapped_fields : list (str * str * str) :=
-  flat_map (fun c => if mem_str (c_name c) TEMPLATE_LEVEL then [] else
+  flat_map (fun c => if negb (mem_str (c_name c) RESOURCE_LEVEL) then [] else
      flat_map (fun f => map (fun k => (c_name c, f_name f, leaf_tag k)) (unwrapped (f_type f))) (c_fields c)) CLASSES.
 Definition binary_fields : list str :=
   strs ["BinaryEquals"; "BinaryEqualsIfExists"; "ForAllValuesBinaryEquals"; "ForAllValuesBinaryEqualsIfExists";
